@@ -351,7 +351,8 @@ def run(tier):
         cs = TabCase(v, "0")
         rep.sample({"program": cs.text, "queries": cs.queries, "expected_sets": [c["ans"] for c in v["calls"]]})
     rep.traces = len(dl) + sum(len(v["calls"]) for v in tab)
-    rep.exhaustive = True
+    rep.exhaustive = quick       # thorough adds a seeded *sample* of the digraphs on 4 nodes
+    rep.extra["exhaustive_part"] = "every digraph on 3 nodes in the stated classes and every program of the template family was enumerated and replayed"
     rep.extra["tabled_programs"] = len(tab)
     rep.extra["delimited_control_programs"] = len(dl)
     rep.assumptions = ["TLC", "spec/Tabling.tla (least fixpoint = SLG answers)", "spec/Delim.tla + spec/Prolog.tla",
